@@ -103,7 +103,7 @@ def gen_frame(rng, name, arbid, ext, opts):
                         s["mux"] = g
                         sigs.append(s)
                 used |= gused
-            if not any(isinstance(s["mux"], int) for s in sigs):
+            if not any(isinstance(s["mux"], int) for s in sigs) and not (opts.get("lone_mux") and rng.random() < 0.5):
                 mx["mux"] = None          # a multiplexer without any group is not a multiplexed frame
     for k in range(rng.randint(1, opts.get("maxsigs", 4))):
         s = gen_signal(rng, "s%d" % k, nbytes, used, opts)
